@@ -62,7 +62,13 @@ func rdn(cn string, extra ...string) *pkix.RDNSequence {
 	return &seq
 }
 
-var storeIssuers = []*pkix.RDNSequence{rdn("Issuer One"), rdn("Issuer Two", "Org Ünïcode ✓"), rdn("Issuer_1"), rdn("Issuer", "1")}
+// storeIssuers: distinct names, some of them easy to conflate: "Issuer_1" vs ("Issuer","1"); names that differ in one
+// UTF-8 continuation byte only (ü = C3 BC / ö = C3 B6; 国 = E5 9B BD / 國 = E5 9C 8B).
+var storeIssuers = []*pkix.RDNSequence{rdn("Issuer One"), rdn("Issuer Two", "Org Ünïcode ✓"), rdn("Issuer_1"), rdn("Issuer", "1"),
+	rdn("Müller Root CA"), rdn("Möller Root CA"), rdn("国 CA", "Org"), rdn("國 CA", "Org")}
+
+// storeTwin: the issuer most easily conflated with issuer i
+var storeTwin = []int{1, 0, 3, 2, 5, 4, 7, 6}
 
 func storeSerial(tp *Tape) *big.Int {
 	switch tp.Int(6) {
@@ -233,11 +239,11 @@ func init() {
 		return Plan{Runs: n, Enumerated: c18enum, Exhaustive: true, Level: "exploration", Rule: "runs 0..583 enumerate every operation sequence of length 1..3 over the 8 operation kinds (values drawn from the tape), each followed by two inserts and a reopen; further runs: a tape-drawn sequence of 8-60 store operations (start, insert, ext-meta, signer, locations, lookup hit/miss, whole-store replacement with a store built by a sub-sequence, close+reopen and dirty restart for disk, optional write faults) applied in lock-step to a MapStore, a LevelDbStore (through crlstore.CreateStoreFactory, simulated disk underneath) and a reference model; after every step all getters and a fixed set of lookups are compared map = disk = model; non-trivial = the sequence contains a replacement, a reopen, a dirty restart or an injected fault; distinct = distinct operation sequences"}
 	}, Run: runC18})
 	register(&PropDef{ID: "C09", Plan: func(tier string) Plan {
-		n := 96
+		n := c09cells
 		if tier == "thorough" {
-			n = 96 + 1500
+			n = c09cells + 1500
 		}
-		return Plan{Runs: n, Enumerated: 96, Exhaustive: true, Level: "fault_enumeration", Rule: "runs 0..95 enumerate (fault kind in {db closed, read error, corrupted block, undecodable value, truncated value, store missing after failed swap, shutdown racing the lookup, value of wrong type}) x (listed, unlisted) x (backend) x (store level, repository level, validator level) completely (cells that do not exist for a backend are counted as skipped); further runs draw the same with random population sizes, tiny write buffers and schedules; oracle: under a fault that affects the lookup the answer is an error or 'revoked', never (not revoked, nil), and never a panic; the same lookups without the fault are exact"}
+		return Plan{Runs: n, Enumerated: c09cells, Exhaustive: true, Level: "fault_enumeration", Rule: "runs 0..107 enumerate (fault kind in {db closed, read error, corrupted block, undecodable value, truncated value, store missing after failed swap, shutdown racing the lookup, value of wrong type, value altered inside the serial but still decodable}) x (listed, unlisted) x (backend) x (store level, repository level, validator level) completely (cells that do not exist for a backend are counted as skipped); further runs draw the same with random population sizes, tiny write buffers and schedules; oracle: under a fault that affects the lookup the answer is an error or 'revoked', never (not revoked, nil), and never a panic; the same lookups without the fault are exact"}
 	}, Run: runC09})
 }
 
@@ -356,11 +362,13 @@ func runC18(h *Harness) {
 				}
 				apply(fmt.Sprintf("start(%s)", mi.Issuer.String()), func(s crlstore.CRLStore) error { return s.StartUpdateCrl(mi) }, func(m *storeModel) { m.meta = mi })
 			case 1:
-				iss := storeIssuers[tp.Int(len(storeIssuers))]
+				ii := tp.Int(len(storeIssuers))
+				iss := storeIssuers[ii]
 				ser := storeSerial(tp)
 				e := storeEntry(tp, ser)
 				addKey(iss, ser)
 				addKey(storeIssuers[(tp.Int(len(storeIssuers)))], ser) // same serial under another issuer
+				addKey(storeIssuers[storeTwin[ii]], ser)                // and under the most similar name
 				addKey(iss, new(big.Int).Add(ser, big.NewInt(1)))
 				apply(fmt.Sprintf("insert(%s,%s)", iss.String(), ser), func(s crlstore.CRLStore) error {
 					return s.InsertRevokedCert(&crlreader.CRLEntry{Issuer: iss, RevokedCertificate: e})
@@ -516,7 +524,10 @@ func recordOnly(h *Harness, oracle, sig, detail string) {
 
 // ------------------------------------------------------------------------------------------ C09
 
-var c09faults = []string{"db-closed", "read-error", "corrupt-block", "undecodable-value", "truncated-value", "store-missing-after-failed-swap", "shutdown-race", "wrong-type-value"}
+var c09faults = []string{"db-closed", "read-error", "corrupt-block", "undecodable-value", "truncated-value", "store-missing-after-failed-swap", "shutdown-race", "wrong-type-value", "altered-value"}
+
+const c09cells = 9 * 2 * 2 * 3
+
 var c09levels = []string{"store", "repository", "validator"}
 
 func runC09(h *Harness) {
@@ -525,11 +536,12 @@ func runC09(h *Harness) {
 	var fault, level, backend string
 	var listed bool
 	npop := 5
-	if idx < 96 {
-		fault = c09faults[idx%8]
-		listed = (idx/8)%2 == 0
-		backend = []string{"disk", "memory"}[(idx/16)%2]
-		level = c09levels[(idx/32)%3]
+	if idx < c09cells {
+		nf := len(c09faults)
+		fault = c09faults[idx%nf]
+		listed = (idx/nf)%2 == 0
+		backend = []string{"disk", "memory"}[(idx/(2*nf))%2]
+		level = c09levels[(idx/(4*nf))%3]
 	} else {
 		fault = c09faults[tp.Int(len(c09faults))]
 		listed = tp.Chance(1, 2)
@@ -554,6 +566,9 @@ func runC09(h *Harness) {
 	}
 	if fault == "store-missing-after-failed-swap" && level == "store" {
 		applicable = false
+	}
+	if fault == "altered-value" && !listed {
+		applicable = false // there is no record of an unlisted certificate that could be altered
 	}
 	if !applicable {
 		h.Probe("cell-not-applicable")
@@ -838,6 +853,25 @@ func c09injectStore(h *Harness, s crlstore.CRLStore, f crlstore.Factory, backend
 		put(v[:len(v)/2])
 	case "wrong-type-value":
 		put([]byte{0x04, 0x03, 'a', 'b', 'c'}) // a well-formed OCTET STRING where a SEQUENCE is expected
+	case "altered-value":
+		// bit rot inside the stored record of the listed certificate that leaves it decodable: the lowest bit of the
+		// last octet of the serial number inside the value (SEQUENCE { INTEGER serial, ... })
+		v := append([]byte(nil), get()...)
+		var ts []tlv
+		walkDER(v, 0, 0, &ts)
+		hit := false
+		for _, t := range ts {
+			if v[t.off] == 0x02 && t.length > 0 {
+				v[t.off+t.hdr+t.length-1] ^= 0x01
+				hit = true
+				break
+			}
+		}
+		if !hit {
+			panic("harness: stored record of a listed certificate has no INTEGER: " + fmt.Sprintf("%x", v))
+		}
+		h.Probe("altered-value:planted")
+		put(v)
 	}
 }
 
